@@ -298,6 +298,43 @@ def run(ctx):
                         src += "def h%d():\n    log('h%d')\n    return dds.keep('/n%d', h%d)\n\n" % (i, i, i, i + 1)
                 src += "def top():\n    log('top')\n    return %s\n" % ("str(h1()).upper()" if via == "callee" else "h1()")
                 run_case(w, src, lambda m: dds.eval(m.top), "EVAL_IN_EVAL", "nested eval depth %d via %s" % (depth, via))
+        # cycles and nested evals reached through names that are imported in the body of the function, wherever the import statement
+        # stands: at the top of the body, in an exception handler (the fallback import), in an else / finally clause, under a case
+        for place in ("body", "except", "else", "finally", "case", "with", "if"):
+            ma, mb = w.unique("c11ia"), w.unique("c11ib")
+            imp = "from %s import g" % mb
+            stmts = {"body": "    %s\n" % imp,
+                     "except": "    try:\n        import c11_no_such_module\n    except ImportError:\n        %s\n" % imp,
+                     "else": "    try:\n        pass\n    except ImportError:\n        pass\n    else:\n        %s\n" % imp,
+                     "finally": "    try:\n        pass\n    finally:\n        %s\n" % imp,
+                     "case": "    match n:\n        case _:\n            %s\n" % imp,
+                     "with": "    with open(__file__) as fh_:\n        %s\n" % imp,
+                     "if": "    if n is not None:\n        %s\n" % imp}[place]
+            w.write_module(mb, HEAD + "def g(n=0):\n    log('g')\n    from %s import f\n    return f(n)\n" % ma)
+            src_a = HEAD + "def f(n=0):\n    log('f')\n" + stmts + "    return g(n)\n\ndef top():\n    log('top')\n    return f(1)\n"
+            moda = w.write_module(ma, src_a)
+            inner._cache["preexisting"] = "v"
+            snap = (dict(inner._cache), dict(inner._paths))
+            execlog.clear()
+            try:
+                v = dds.eval(moda.top)
+                out = ("returned", repr(v)[:60])
+            except DDSException as e:
+                out = ("dds_error", e.error_code.name if e.error_code is not None else None)
+            except BaseException as e:
+                out = ("exc", type(e).__name__ + ": " + str(e)[:80])
+            ws.reset_dds_state()
+            log_ = execlog.snapshot()
+            changed = (dict(inner._cache), dict(inner._paths)) != snap
+            res.evaluations += 1
+            res.count("cycles_through_in_body_imports")
+            res.nontrivial("cycle through an in-body import, %s" % place)
+            if out != ("dds_error", "CIRCULAR_CALL") or log_ or changed:
+                res.violations.append({"what": "ill-formed evaluation (CIRCULAR_CALL expected): two modules whose functions call each other through imports made in the "
+                                               "function bodies (the import statement stands in: %s): outcome %s, user functions executed %s, store changed %s" % (place, out, log_[:6], changed),
+                                       "input": {"case": "cycle through in-body imports", "place": place, "module_a": src_a}, "kf": None})
+            inner._cache.clear()
+            inner._paths.clear()
         # a nested eval that the analysis cannot see (it sits in a library that is not accepted, or dds.eval is handed over as a value):
         # it is found when it runs, and is rejected with the same code - also when the user code around it has the usual best-effort
         # handler (except Exception), which must not turn the rejection into a result. (Found at run time: the clause 'nothing
